@@ -403,7 +403,7 @@ def prepare(tier):
 
 def params(tier):
     if tier == 'quick':
-        return {'examples': 700, 'wall': 90, 'case_timeout': 60}
+        return {'examples': 700, 'wall': 130, 'case_timeout': 60}
 
     return {'examples': 9000, 'wall': 600, 'case_timeout': 120}
 
